@@ -362,7 +362,13 @@ def concrete_bulk_family(htu, fn, pn):
     """first disagreement between fn (partially evaluated on concrete bytes) and the byte-wise specification, or None"""
     def mm(interp, args, node):
         d, s_, n = args
-        src = [interp.load(s_.c, s_.k + i) for i in range(n)]
+        if isinstance(s_, Ptr) and isinstance(s_.c, dict) and isinstance(s_.c.get(s_.k), int):
+            # bytes of an integer object (little-endian host configuration), e.g. memcpy(dst, &pattern, count)
+            src = list((s_.c[s_.k] & ((1 << 64) - 1)).to_bytes(8, 'little'))[:n]
+            if n > 8:
+                raise pe.PEError('copy of %d bytes out of an integer object' % n)
+        else:
+            src = [interp.load(s_.c, s_.k + i) for i in range(n)]
         for i in range(n):
             interp.store(d.c, d.k + i, src[i])
         return d
